@@ -96,7 +96,12 @@ func runC10(c *vkit.Ctx, lab *Lab, r *rand.Rand, i int) {
 				continue
 			}
 			pr.Shuffle(len(ents), func(a, b int) { ents[a], ents[b] = ents[b], ents[a] })
-			os.WriteFile(f, []byte(vkit.RenderSnapFile(ents)), 0o644)
+			if pr.IntN(3) == 0 {
+				os.WriteFile(f, []byte(vkit.RenderSnapFileLoose(pr, ents)), 0o644)
+				c.Count("files_with_blank_line_runs", 1)
+			} else {
+				os.WriteFile(f, []byte(vkit.RenderSnapFile(ents)), 0o644)
+			}
 		}
 		res := lab.P.RunChild(RunOpt{PkgDir: lab.PkgDir, Scenario: lc.Scenario, Update: lc.Update})
 		if !res.Complete {
@@ -211,8 +216,9 @@ func runC10(c *vkit.Ctx, lab *Lab, r *rand.Rand, i int) {
 			if !totalOrder(entryIDs(ents)) {
 				continue
 			}
-			if finals[1][p] != c1 {
-				c.Violate("sort-depends-on-initial-order", "", fmt.Sprintf("%s: two permutations of the same entries end in different bytes", filepath.Base(p)), in)
+			// the entry sequence, not the bytes: a file that needed no rewrite keeps its layout
+			if e2, _ := vkit.ParseSnapFile(finals[1][p]); fmt.Sprint(e2) != fmt.Sprint(ents) {
+				c.Violate("sort-depends-on-initial-order", "", fmt.Sprintf("%s: two permutations of the same entries end in different entry sequences", filepath.Base(p)), in)
 				return
 			}
 			c.Count("permutation_pairs_compared", 1)
